@@ -21,4 +21,12 @@ def jobs(tier):
                          stubs=["hash tables = one-entry maps", "spawn / shell parsing / loop / transaction / dispatch = ghost logs with symbolic outcomes", "service cache refresh = body-less"],
                          bounds=f"activation {'pending with %d held message(s)' % e if pend else 'not pending'}; spawn / parse / dispatch outcomes, connectedness and auto-start flags symbolic",
                          shape=f"{nm}, pending={pend}, held={e}"))
+    # a failed start takes down only pending activations with the very same Exec line (real pending_activation_finished_cb)
+    for k, (exa, exb) in enumerate((("/x/demo s", "/x/demo serve"), ("/x/a", "/x/a"), ("/x/a", "/x/b"), ("/x/serve", "/x/s"))):
+        for e in (1, 2):
+            J.append(Job(name=f"bcd.failure_scope.X{k}E{e}", group="C19.bus", harness="harness/C19_activation.c", defines={"OP": 3, "PEND": 1, "E": e, "EXA": '"' + exa + '"', "EXB": '"' + exb + '"'}, real=["dbus/dbus-list.c"],
+                         env=["assert_stubs.c", "pool_lock.c"], checks="assert", unwind=8, unwindset=["strcmp.0:64", "strlen.0:24", "strncmp.0:24", "memcmp.0:24"], timeout=600, remove_bodies=["update_service_cache", "check_service_file"],
+                         encodes=["pending_activation_finished_cb", "pending_activation_failed", "try_send_activation_failure"],
+                         stubs=["babysitter = child exited with status 1", "pending-activation table = two-entry map"],
+                         bounds=f"failing activation with Exec '{exa}' and {e} waiting sender(s); another pending activation with Exec '{exb}'; connectedness symbolic", shape=f"failure scope {exa} vs {exb}"))
     return J
